@@ -8,6 +8,7 @@ Driver for C14.  Ops (one per line):
   hist <kind> <l:c,l:c,..>    -> the same line for the state reached from the factory's (`State.initial`) by `State.run` of the assignments
                                  `link l := code c` in order, the i-th installing a fresh target (number i + 1)
   seq <impl> <pattern> [view] -> `size=.. empty=.. get=[..|..] fwd=[..] bwd=[..] end=.. rend=..`
+  lookup <scope> <pattern>    -> `byname=[<token per member>|<token for a name nobody has>]`  (see `lookupLine`)
   optional <0|1>              -> `!L` or `e0`  (Optional<T>::get / util::ref<T>::get)
 Every outcome token is `Sem.render`, i.e. a rendering of `Sem.eval` on that state (the definition IprProps/C14.lean is about).
 Sequence patterns: one letter per slot/element — `s` an element, `p` an element whose type() raises, `u` a slot made by the
@@ -101,16 +102,72 @@ def seqLine (impl : String) (pat : List Char) (view : String) : String :=
     if view == "type" then viewLine "t" h.type else viewLine "e" h.view
   | _ => "bad-op"
 
+/-! look-ups by name: `lookup <scope> <pattern>`, letters `s` (own name), `r` (repeats the first name), `a` (name cannot be read) -/
+
+/-- Names (`none`: `name()` raises) and types of the members the probe builds for a pattern.  Name `k` is the name made for
+    member `k`; a member of letter `r` takes the name of the first named member (in `bases` it is that very class again,
+    hence also its type); every enumerator has the one enumeration (type 0) as its type. -/
+def lookupMembers (scope : String) (pat : List Char) : List (Option Nat × Nat) :=
+  let step (acc : List (Option Nat × Nat) × Option Nat) (ci : Char × Nat) : List (Option Nat × Nat) × Option Nat :=
+    let (ms, first) := acc
+    let (c, i) := ci
+    let ty (j : Nat) : Nat := if scope == "enums" then 0 else j
+    match c, first with
+    | 'a', _ => (ms ++ [(none, ty i)], first)
+    | 'r', some f => (ms ++ [(some f, if scope == "bases" then ty f else ty i)], first)
+    | _, none => (ms ++ [(some i, ty i)], some i)
+    | _, some _ => (ms ++ [(some i, ty i)], first)
+  (pat.zipIdx.foldl step ([], none)).1
+
+def lookupToken (scope : String) (ms : List (Option Nat × Nat)) (q : Nat) (own : Option Nat) : String :=
+  if scope == "general" then
+    match ms.findIdx? (fun m => m.1 == some q) with
+    | none => "-"
+    | some _ =>
+      let b := match own with
+        | none => "-"
+        | some t => match generalSelect ms (some q) t with
+          | some m => s!"e{m}"
+          | none => "-"
+      s!"o(!L;{b};-)"
+  else
+    let names : List (Res Nat) := ms.map (fun m => match m.1 with | some n => .ok n | none => .error .logic)
+    match HomScope.lookup names q with
+    | .error _ => "!L"
+    | .ok none => "-"
+    | .ok (some j) =>
+      let tj := (ms.getD j (none, 0)).2
+      let b := match own with
+        | none => "-"
+        | some t => match singletonSelect (.ok tj : Res Nat) t with
+          | .ok true => s!"e{j}"
+          | _ => "-"
+      s!"o(t{tj};{b};-)"
+
+def lookupLine (scope : String) (pat : List Char) : String :=
+  let ok := match scope with
+    | "bases" => pat.all (fun c => c == 's' || c == 'r' || c == 'a')
+    | "params" | "enums" | "general" => pat.all (fun c => c == 's' || c == 'r')
+    | "eh" => pat == ['s']
+    | _ => false
+  if !ok then "bad-op" else
+  let ms := lookupMembers scope pat
+  let toks := ms.map (fun m => match m.1 with
+    | none => "~"
+    | some q => lookupToken scope ms q (some m.2))
+  -- the name nobody has: one more than any member index
+  "byname=[" ++ joinWith "," toks ++ "|" ++ lookupToken scope ms (pat.length + 1) none ++ "]"
+
 def step (_ : Unit) : List String → Unit × List String
-  | ["kinds"] => ((), kinds.map kindLine)
+  | ["kinds"] => ((), sweptKinds.map kindLine)
   | ["state", kind, ds] =>
-    match findKind kind, digits ds with
+    match findSwept kind, digits ds with
     | some k, some codes =>
       if codes.length == k.links.length then ((), [stateLine k ds (State.ofCodes codes)]) else ((), [s!"{kind} {ds} : bad-state"])
     | none, _ => ((), [s!"{kind} {ds} : unmodelled-kind"])
     | _, _ => ((), [s!"{kind} {ds} : bad-state"])
   | ["hist", kind, h] =>
-    match findKind kind, parseHist h with
+    match findSwept kind, parseHist h with
     | some k, some assigns =>
       -- the i-th assignment of the history sets its link to a fresh target, numbered i + 1
       let σ := (State.initial k.links.length).run (numbered assigns)
@@ -120,6 +177,7 @@ def step (_ : Unit) : List String → Unit × List String
   | ["seq", impl, pat] => ((), [s!"seq {impl} {pat} : " ++ seqLine impl (if pat == "-" then [] else pat.toList) "decl"])
   | ["seq", impl, pat, view] =>
     ((), [s!"seq {impl} {pat} {view} : " ++ seqLine impl (if pat == "-" then [] else pat.toList) view])
+  | ["lookup", scope, pat] => ((), [s!"lookup {scope} {pat} : " ++ lookupLine scope (if pat == "-" then [] else pat.toList)])
   | ["optional", b] => ((), [s!"optional {b} : " ++ showRes "e" (optionalGet (if b == "1" then some 0 else none))])
   | _ => ((), ["bad-op"])
 
